@@ -30,30 +30,14 @@ func wireCustomResolver(rep *Report) {
 		return
 	}
 	d := s.Zero.ProtoReflect().Descriptor()
-	fdp := &descriptorpb.FileDescriptorProto{Name: proto.String("vfdyn/ext.proto"), Package: proto.String("vf.dynext"), Syntax: proto.String("proto2"),
-		Dependency: []string{"google/protobuf/descriptor.proto"},
-		Extension: []*descriptorpb.FieldDescriptorProto{
-			{Name: proto.String("unit"), Number: proto.Int32(50900), Label: descriptorpb.FieldDescriptorProto_LABEL_OPTIONAL.Enum(), Type: descriptorpb.FieldDescriptorProto_TYPE_STRING.Enum(), Extendee: proto.String(".google.protobuf.FieldOptions")},
-			{Name: proto.String("rank"), Number: proto.Int32(50901), Label: descriptorpb.FieldDescriptorProto_LABEL_OPTIONAL.Enum(), Type: descriptorpb.FieldDescriptorProto_TYPE_SINT32.Enum(), Extendee: proto.String(".google.protobuf.MessageOptions")},
-		}}
-	fd, err := protodesc.NewFile(fdp, protoregistry.GlobalFiles)
-	if err != nil {
+	stream, unit, rank := customResolverStream()
+	if stream == nil {
 		rep.Inconclusive("C03", "custom-resolver-descriptor-rejected")
 		return
 	}
 	types := new(protoregistry.Types)
-	unit := dynamicpb.NewExtensionType(fd.Extensions().ByName("unit"))
-	rank := dynamicpb.NewExtensionType(fd.Extensions().ByName("rank"))
 	_ = types.RegisterExtension(unit)
 	_ = types.RegisterExtension(rank)
-	fo := protowire.AppendString(protowire.AppendTag(nil, 50900, protowire.BytesType), "kg")
-	mo := protowire.AppendVarint(protowire.AppendTag(nil, 50901, protowire.VarintType), protowire.EncodeZigZag(-4))
-	level := protowire.AppendBytes(protowire.AppendTag(nil, 1, protowire.BytesType), fo)
-	level = protowire.AppendBytes(protowire.AppendTag(level, 2, protowire.BytesType), mo)
-	ent := protowire.AppendString(protowire.AppendTag(nil, 1, protowire.BytesType), "k")
-	ent = protowire.AppendBytes(protowire.AppendTag(ent, 2, protowire.BytesType), fo)
-	level = protowire.AppendBytes(protowire.AppendTag(level, 3, protowire.BytesType), ent)
-	stream := append(append([]byte{}, level...), protowire.AppendBytes(protowire.AppendTag(nil, 4, protowire.BytesType), level)...)
 	rc := replayCase{Engine: "wire", Type: string(s.FullName), Seed: *flagSeed, Index: -1, Value: hx(stream), Note: "custom resolver"}
 	count := func(m protoreflect.Message) (n int) { // extension fields resolved (known, not unknown bytes) anywhere below m
 		var walk func(m protoreflect.Message)
@@ -467,4 +451,30 @@ func unmarshalVia(entry int, b []byte, m proto.Message, merge, discard bool) err
 
 func unmarshalEntryName(entry int) string {
 	return []string{"proto.Unmarshal", "proto.Unmarshal", "ProtoMethods().Unmarshal(Depth=0)", "ProtoMethods().Unmarshal(Depth=limit)"}[entry]
+}
+
+// customResolverStream: an encoding of vf.wkt.HoldsOptions whose embedded FieldOptions / MessageOptions carry two
+// extensions that only the returned (dynamic) extension types describe.
+func customResolverStream() ([]byte, protoreflect.ExtensionType, protoreflect.ExtensionType) {
+	fdp := &descriptorpb.FileDescriptorProto{Name: proto.String("vfdyn/ext.proto"), Package: proto.String("vf.dynext"), Syntax: proto.String("proto2"),
+		Dependency: []string{"google/protobuf/descriptor.proto"},
+		Extension: []*descriptorpb.FieldDescriptorProto{
+			{Name: proto.String("unit"), Number: proto.Int32(50900), Label: descriptorpb.FieldDescriptorProto_LABEL_OPTIONAL.Enum(), Type: descriptorpb.FieldDescriptorProto_TYPE_STRING.Enum(), Extendee: proto.String(".google.protobuf.FieldOptions")},
+			{Name: proto.String("rank"), Number: proto.Int32(50901), Label: descriptorpb.FieldDescriptorProto_LABEL_OPTIONAL.Enum(), Type: descriptorpb.FieldDescriptorProto_TYPE_SINT32.Enum(), Extendee: proto.String(".google.protobuf.MessageOptions")},
+		}}
+	fd, err := protodesc.NewFile(fdp, protoregistry.GlobalFiles)
+	if err != nil {
+		return nil, nil, nil
+	}
+	unit := dynamicpb.NewExtensionType(fd.Extensions().ByName("unit"))
+	rank := dynamicpb.NewExtensionType(fd.Extensions().ByName("rank"))
+	fo := protowire.AppendString(protowire.AppendTag(nil, 50900, protowire.BytesType), "kg")
+	mo := protowire.AppendVarint(protowire.AppendTag(nil, 50901, protowire.VarintType), protowire.EncodeZigZag(-4))
+	level := protowire.AppendBytes(protowire.AppendTag(nil, 1, protowire.BytesType), fo)
+	level = protowire.AppendBytes(protowire.AppendTag(level, 2, protowire.BytesType), mo)
+	ent := protowire.AppendString(protowire.AppendTag(nil, 1, protowire.BytesType), "k")
+	ent = protowire.AppendBytes(protowire.AppendTag(ent, 2, protowire.BytesType), fo)
+	level = protowire.AppendBytes(protowire.AppendTag(level, 3, protowire.BytesType), ent)
+	stream := append(append([]byte{}, level...), protowire.AppendBytes(protowire.AppendTag(nil, 4, protowire.BytesType), level)...)
+	return stream, unit, rank
 }
